@@ -132,4 +132,56 @@ theorem saved_object_loads_back (pre post : List Tok) (fields : List (Key × Tre
     obtain ⟨o'', r'', c1, _, c3⟩ := C03.close_after_any_history L hwf qs _ r hinv as o' r' hr
     exact ⟨h.1, o'', r'', c1, c3⟩
 
+/-! #### the same with arrays left partly read (fix 0b9e4f2: `~CMsgPackReadArrayScope` skips the unread elements) -/
+
+theorem toksList_eq_flatten (items : List Tree) : Tree.toks.toksList items = (items.map Tree.toks).flatten := by
+  induction items with
+  | nil => rfl
+  | cons t ts ih => simp [Tree.toks.toksList, ih]
+
+/-- every array field of a saved object is an array of complete values -/
+theorem layoutOf_arrwf (pre : List Tok) (fields : List (Key × Tree)) (post : List Tok) : (layoutOf pre fields post).ArrWF := by
+  intro e he n ts h
+  simp only [layoutOf, List.mem_map] at he
+  obtain ⟨f, _, rfl⟩ := he
+  obtain ⟨k, t⟩ := f
+  cases t with
+  | arr items =>
+    refine ⟨items.map Tree.toks, ?_, ?_⟩
+    · simp [Tree.toks, toksList_eq_flatten]
+    · intro w hw
+      simp only [List.mem_map] at hw
+      obtain ⟨t', _, rfl⟩ := hw
+      exact saved_tree_is_one_value t'
+  | obj fs => simp [Tree.toks] at h
+  | int v => simp [Tree.toks] at h
+  | bool b => simp [Tree.toks] at h
+  | str s' => simp [Tree.toks] at h
+  | flt b => simp [Tree.toks] at h
+  | nil => simp [Tree.toks] at h
+
+/-- **C01 (MsgPack, token level) with containers read in part**: a saved object loads back field by field in ANY order
+    when array fields are read only as far as the target likes (a `std::tuple` shorter than the saved array under the
+    Skip policy, a prefix, nothing at all) — every answer is the abstract one, and closing the scope lands exactly behind
+    the saved object. Composition of `C03.history_with_arrays_correct` with `saved_tree_is_one_value`. -/
+theorem saved_object_loads_back_with_arrays (pre post : List Tok) (fields : List (Key × Tree)) (mis : Mis) (qs : List C03.OReq) :
+    let L := layoutOf pre fields post
+    let r : Rd := ⟨L.doc, L.posOf 0, mis⟩
+    match C03.runReqs qs ⟨r.pos, L.size, 0, none⟩ r with
+    | .ok (as, o', r') => C03.Forall2 (C03.ReqAnswerOK L mis) qs as ∧
+        (∃ o'' r'', objClose o' r' = .ok (o'', r'') ∧ r''.rest = post)
+    | .error err => ∃ q ∈ qs, C03.ReqErrorOK L mis q err := by
+  intro L r
+  have hwf := layoutOf_wf pre fields post
+  have harr := layoutOf_arrwf pre fields post
+  have hinv := C03.fresh_scope_inv L r rfl rfl
+  have h := C03.history_with_arrays_correct L hwf harr qs _ r hinv
+  cases hr : C03.runReqs qs ⟨r.pos, L.size, 0, none⟩ r with
+  | error e => rw [hr] at h; exact h
+  | ok res =>
+    obtain ⟨as, o', r'⟩ := res
+    rw [hr] at h
+    obtain ⟨o'', r'', c1, _, c3⟩ := C03.close_after_any_history_with_arrays L hwf harr qs _ r hinv as o' r' hr
+    exact ⟨h.1, o'', r'', c1, c3⟩
+
 end BSVerif.Props.C01
